@@ -164,7 +164,7 @@ func CheckUciHistory(sc *Scenario, out *UciRunOut, res *RunResult) {
 		if c13 && !excl {
 			// depth limit: completes exactly d iterations unless single legal move
 			if g.limits.Depth > 0 && g.stopT < 0 && g.limits.Nodes == 0 && !g.limits.TimeControlled() && !g.limits.needsStop() {
-				if len(legalRoot) > 1 {
+				if len(legalRoot) > 1 && len(g.limits.Moves) != 1 {
 					if g.lastDepth != g.limits.Depth {
 						res.addViolation("C13", "depth_not_exact", fmt.Sprintf("%q on %s: last completed iteration %d", g.line, g.root.Fen(), g.lastDepth))
 					}
@@ -244,9 +244,14 @@ func CheckUciHistory(sc *Scenario, out *UciRunOut, res *RunResult) {
 					g.root = model.Clone()
 				}
 				if pending != nil && !pending.damaged {
-					if !c16 {
-						res.Harness = "generator sent go while a search was pending: " + h.Text
+					// the GUI only sends a new go after bestmove or after it
+					// gave up waiting: the earlier go was never answered
+					cls := "go_unanswered"
+					prop := pick(c12, "C12", pick(c13, "C13", "C05"))
+					if len(pending.limits.Moves) > 0 {
+						cls, prop = "go_searchmoves_unanswered", pick(c13, "C13", prop)
 					}
+					res.addViolation(prop, cls, fmt.Sprintf("%q was not answered by bestmove before the GUI gave up waiting", pending.line))
 				}
 				pending = g
 			case "stop":
